@@ -350,6 +350,8 @@ class Abs:
                 return ("callable", cn)         # a standard-library callable imported by name (from itertools import product)
             if e.id in _BUILTIN_CALLABLES:
                 return ("callable", e.id)
+            if e.id in getattr(self, "_unbound", ()):
+                raise Raised("UnboundLocalError(cannot access local variable %s where it is not associated with a value)" % e.id)
             raise Undecided("unbound name %s" % e.id)
         if isinstance(e, (ast.List, ast.Tuple)):
             vals = []
@@ -1095,6 +1097,14 @@ class Abs:
                 return sorted(seq, reverse=bool(kw.get("reverse", False)))
             except TypeError:
                 raise Undecided("sorting opaque values")
+        if dn == "pow" and len(args) in (2, 3) and "pow" not in self.env:
+            if all(isinstance(a, (int, float)) and not isinstance(a, bool) for a in args):
+                try:
+                    return pow(*args)
+                except (ZeroDivisionError, ValueError, TypeError) as ex:
+                    raise Raised("%s(%s)" % (type(ex).__name__, ex))
+            if len(args) == 2:
+                return self.binop(ast.Pow(), args[0], args[1])
         if dn == "repr" and len(args) == 1:
             v = args[0]
             if v is None or isinstance(v, (bool, int, float, str)) and "<formatted>" not in str(v):
@@ -1656,6 +1666,14 @@ class Abs:
                 if isinstance(st.exc, ast.Name) and isinstance(self.env.get(st.exc.id), ExcVal):
                     raise Raised(self.env[st.exc.id].label)             # raise e
                 name = dotted(st.exc.func) if isinstance(st.exc, ast.Call) else (dotted(st.exc) or "Exception")
+                if isinstance(st.exc, ast.Call) and len(st.exc.args) == 1 and not st.exc.keywords:
+                    # keep the message when it is plain text (str(e), e.args of a handler further out)
+                    try:
+                        msg = self.ev(st.exc.args[0])
+                    except (Undecided, Raised):
+                        msg = None
+                    if isinstance(msg, str) and "<formatted>" not in msg and "(" not in msg and ")" not in msg:
+                        raise Raised("%s(%s)" % (name, msg))
                 raise Raised(name)
             elif isinstance(st, ast.Pass):
                 continue
@@ -1683,6 +1701,7 @@ class Abs:
                                 self._exc_stack = self._exc_stack[:-1]
                                 if h.name:
                                     self.env.pop(h.name, None)          # python unbinds the name at the end of the handler
+                                    self._unbound = getattr(self, "_unbound", set()) | {h.name}
                             break
                         else:
                             raise
